@@ -1,7 +1,7 @@
 SPEC = {
     "id": "C02",
     "harness": "c02",
-    "n": {"quick": 3000, "thorough": 60000},
+    "n": {"quick": 5000, "thorough": 60000},
     "tie_codes": (),
     "shard": 200,
     "trusted_base": [
